@@ -217,10 +217,13 @@ package tls
 //  - with the null cipher state the fragment is returned unchanged;
 //  - decryption never expands: the plaintext is no longer than the fragment.
 //@ pred rcCCS13(hc, record) = hc.version == VersionTLS13 && old(record[0]) == uint8(recordTypeChangeCipherSpec)
+// the cipher state is an AEAD (second case of the type switch: not a cipher.Stream, and an aead)
+//@ pred rcAEAD(hc) = !implements(hc.cipher, cipher.Stream) && implements(hc.cipher, aead)
 //@ func (*halfConn).decrypt
 //@   uses perreturn
 //@   requires hc != nil && len(record) >= recordHeaderLen && len(record) <= recordHeaderLen + maxCiphertext && sep(record, hc)
-//@   requires hc.cipher != nil ==> hc.mac != nil
+//@   requires hc.cipher != nil && !rcAEAD(hc) ==> hc.mac != nil
+//@   requires rcAEAD(hc) ==> hc.mac == nil
 //@   requires rcSeqVal(hc) != 0xffffffffffffffff
 //@   at call incSeq assert rcSeqVal(hc) != 0xffffffffffffffff
 //@   ensures  [reject] result2 != nil ==> result0 == nil && rcSeqVal(hc) == old(rcSeqVal(hc))
@@ -229,8 +232,11 @@ package tls
 //@   ensures  [null] hc.cipher == nil && hc.mac == nil && !rcCCS13(hc, record) ==> result2 == nil && same(result0, record[recordHeaderLen:]) && result1 == recordType(old(record[0]))
 //@   ensures  [noexpand] result2 == nil ==> len(result0) <= len(record) - recordHeaderLen && (fresh(result0) || samebase(result0, record))
 //@   ensures  [inner13] result2 == nil && hc.version == VersionTLS13 && hc.cipher != nil && !rcCCS13(hc, record) ==> old(record[0]) == uint8(recordTypeApplicationData) && result1 != 0
+//@   ensures  [inner13len] result2 == nil && hc.version == VersionTLS13 && rcAEAD(hc) && !rcCCS13(hc, record) ==> len(result0) <= maxPlaintext
+//@   ensures  [inner13typ] result2 == nil && hc.version == VersionTLS13 && rcAEAD(hc) && !rcCCS13(hc, record) ==> (len(result0) == 0 && result1 == recordTypeApplicationData) || (len(result0) < cap(result0) && result0[:len(result0)+1][len(result0)] == uint8(result1) && result1 != 0)
 //@   ensures  hc.version == old(hc.version) && hc.cipher == old(hc.cipher) && hc.mac == old(hc.mac)
 //@   loop 1 invariant -1 <= i && i < len(plaintext)
+//@   loop 1 invariant len(plaintext) == 0 || i >= 0
 //@   loop 1 decreases i + 1
 //@   modifies hc.seq, (&hc.scratchBuf)[0], (&hc.scratchBuf)[1], (&hc.scratchBuf)[2], (&hc.scratchBuf)[3], (&hc.scratchBuf)[4], (&hc.scratchBuf)[5], (&hc.scratchBuf)[6], (&hc.scratchBuf)[7], (&hc.scratchBuf)[8], (&hc.scratchBuf)[9], (&hc.scratchBuf)[10], (&hc.scratchBuf)[11], (&hc.scratchBuf)[12], elems(record, 0, cap(record))
 //@   maypanic
